@@ -34,6 +34,7 @@ type Program struct {
 	SSA      *ssa.Program
 	SSAPkgs  map[string]*ssa.Package
 	AllFuncs map[*ssa.Function]bool
+	Renamed  int             // values printed under their frozen (pinned-tree) name, see names.go
 	ModFuncs []*ssa.Function // functions (incl. anonymous) declared in module packages, sorted by name
 	cg       *callgraph.Graph
 	noRet    map[*ssa.Function]bool
@@ -164,6 +165,9 @@ func Load(o LoadOpts) (*Program, error) {
 		}
 		return a.Pos() < b.Pos()
 	})
+	if p.Renamed, err = applyFrozenNames(p); err != nil {
+		return nil, fmt.Errorf("names.json: %w", err)
+	}
 	p.LoadS = time.Since(t0).Seconds()
 	return p, nil
 }
